@@ -347,6 +347,27 @@ def assign_ctx(kind: int, xs: List[int], k: int, v: int) -> bool:
     return True
 
 
+def seg_named_x(name: int, shape: int, style: int, v: int, w: int) -> bool:
+    """path segments that happen to be spelled like the internal wildcard markers ('x', 'X') are ordinary keys / attributes"""
+    start()
+    name, shape, style = concretize(name, 0, 2), concretize(shape, 0, 2), concretize(style, 0, 2)
+    if OUT in (name, shape, style):
+        return True
+    nm = ['x', 'X', 'xX'][name]
+    inner = [{'y': w, 'keep': 1}, {}, [{'y': w}]][shape]
+    t = {'pos': {nm: inner}, nm: {'y': w}}
+    segs = ['pos', nm, 'y']
+    path = ['.'.join(segs), Path(*segs), T['pos'][nm]['y']][style]
+    snap = copy.deepcopy(t)
+    got = run(lambda: glom(t, Assign(path, v), glom_debug=True))
+    reach('seg_named_x')
+    if shape == 2:
+        return (got.kind == 'err' and t == snap) or fail(why='a list parent has no key y: error, target unchanged', got=got, t=t)
+    exp = copy.deepcopy(snap)
+    exp['pos'][nm]['y'] = v
+    return (got.kind == 'ok' and got.value is t and t == exp) or fail(why='plain nested assignment', got=got, t=t, exp=exp)
+
+
 def assign_values(which: int, v: int, w: int) -> bool:
     """values: Spec / T of the target, containers (rebuilt, same type), self-referential containers"""
     start()
@@ -565,6 +586,8 @@ def obligations(tier):
         obs.append(Ob(assign_reuse, fixed={'k1': k1}, pre='0 <= k2 <= 3 and 0 <= seg <= 1 and 0 <= style <= 1', name='assign_reuse_%d' % k1))
         obs.append(Ob(assign_wild_mixed, fixed={'k0': k1}, pre='0 <= k1 <= 3 and 0 <= k2 <= 3 and 0 <= seg <= 1', name='assign_wild_mixed_%d' % k1))
     obs.append(Ob(assign_wild3, pre='0 <= shape <= 1', name='assign_wild3'))
+    obs.append(Ob(seg_named_x, pre='0 <= name <= 2 and 0 <= shape <= 2 and 0 <= style <= 2', name='seg_named_x'))
+    obs.append(Ob(seg_named_x, pre='0 <= name <= 2 and 0 <= shape <= 2 and 0 <= style <= 2', twin='seg_named_x', name='seg_named_x'))
     obs.append(Ob(assign_ctx, pre='0 <= kind <= 3 and len(xs) <= 3', name='assign_ctx'))
     obs.append(Ob(assign_ctx, pre='0 <= kind <= 3 and len(xs) <= 3', twin='assign_ctx', name='assign_ctx'))
     wp = '0 <= style <= 2 and 0 <= s0 <= 2 and 0 <= s1 <= 2 and 0 <= s2 <= 2'
